@@ -6,6 +6,7 @@ import (
 	"fmt"
 	"math/rand"
 	"net"
+	"runtime"
 	"strings"
 	"sync"
 	"sync/atomic"
@@ -681,6 +682,21 @@ func trafficCase(c *core.Case, pl *trafficPlan) {
 	}
 	runSenders(fl, pl.Cfg, pl.Senders, &wg, flLogs, stallFn)
 	runSenders(other, pl.Cfg, pl.Back, &wg, otLogs, nil)
+	// a bystander reads the connection's status and send hints while traffic flows (for the race detector)
+	var sendersDone int32
+	pollDone := make(chan struct{})
+	go func() {
+		defer close(pollDone)
+		for i := 0; i < 300 && atomic.LoadInt32(&sendersDone) == 0; i++ {
+			st := fl.mc.Status()
+			for _, chs := range st.Channels {
+				fl.mc.CanSend(chs.ID)
+			}
+			_ = other.mc.Status()
+			runtime.Gosched()
+		}
+	}()
+	defer func() { atomic.StoreInt32(&sendersDone, 1); <-pollDone }()
 	if !waitOrWatchdog(&wg, watchdog) {
 		run.Inconclusive(fmt.Sprintf("watchdog: senders of %s:%d did not finish", c.Group, c.I))
 		return
